@@ -507,6 +507,17 @@ fn api_tagged<T: TaggedCborSerializable + CborSerializable + core::fmt::Debug + 
 
 fn api(p: &[&str]) -> String {
     let data = unhex(p[2]);
+    if p[1] == "bstr" {
+        // a protected header taken out of a bstr: to_vec must be the serialisation of to_cbor_value
+        let x = match ProtectedHeader::from_cbor_bstr(Value::Bytes(data)) { Ok(x) => x, Err(_) => return "MATCH rejected".into() };
+        let a = x.clone().to_vec();
+        let b = x.to_cbor_value().map(|v| ser(&v));
+        return match (a, b) {
+            (Ok(a), Ok(b)) => if a != b { format!("MISMATCH to_vec={} layered={}", hex::encode(a), hex::encode(b)) } else { "MATCH".into() },
+            (Err(_), Err(_)) => "MATCH".into(),
+            _ => "MISMATCH encode success differs".into(),
+        };
+    }
     if p[1] == "tagged" {
         let tag = match registered_tag(p[0]) { Some(t) => t, None => return "BADTYPE".into() };
         return match p[0] {
